@@ -119,6 +119,8 @@ pub static MPROTECT_FAIL_AT: AtomicI64 = AtomicI64::new(0);
 pub static MPROTECT_CALLS: AtomicI64 = AtomicI64::new(0);
 /// every mprotect whose range covers this page fails (0 = none)
 pub static MPROTECT_FAIL_PAGE: AtomicU64 = AtomicU64::new(0);
+/// != 0: every mprotect asking for PROT_WRITE|PROT_EXEC at once fails with EACCES
+pub static DENY_WX: AtomicU8 = AtomicU8::new(0);
 
 /// Pause points: (kind, 1-based ordinal of that kind within the section); the calling thread
 /// then waits until RELEASE is bumped or PAUSE_MAX_US elapsed.
@@ -137,6 +139,7 @@ pub fn plan_reset() {
     FREE_PAGES.lock().unwrap().clear();
     MPROTECT_FAIL_AT.store(0, SeqCst);
     MPROTECT_FAIL_PAGE.store(0, SeqCst);
+    DENY_WX.store(0, SeqCst);
     MPROTECT_CALLS.store(0, SeqCst);
     clear_flush_hook();
     PAUSE_KIND.store(0, SeqCst);
@@ -330,8 +333,13 @@ pub unsafe extern "C" fn mprotect(addr: *mut libc::c_void, len: libc::size_t, pr
     let n = MPROTECT_CALLS.fetch_add(1, SeqCst) + 1;
     let fp = MPROTECT_FAIL_PAGE.load(SeqCst) as usize;
     let covers = fp != 0 && (addr as usize) <= fp && fp < (addr as usize).saturating_add(len.max(1));
+    let wx = (prot & libc::PROT_WRITE) != 0 && (prot & libc::PROT_EXEC) != 0;
     let r = if MPROTECT_FAIL_AT.load(SeqCst) == n || covers {
         set_errno(libc::ENOMEM);
+        -1
+    } else if wx && DENY_WX.load(SeqCst) != 0 {
+        // a W^X policy: writable+executable is refused, everything else passes
+        set_errno(libc::EACCES);
         -1
     } else {
         sys_mprotect(addr as usize, len, prot)
